@@ -581,22 +581,30 @@ class AttributeCollection(MutableMapping[int, Attribute]):
             self.add(cached, key)
             return
 
-        def merged(two: list[Any], four: list[Any]) -> list[Any]:
-            # RFC 6793 section 4.2.3: with fewer ASes in AS_PATH than in AS4_PATH the AS4_PATH is
-            # ignored, otherwise the leading (len2 - len4) ASes of AS_PATH are prepended to it
-            if len(two) < len(four):
-                return list(two)
-            return list(two[: len(two) - len(four)]) + list(four)
+        # RFC 6793 section 4.2.3: with fewer ASes in AS_PATH than in AS4_PATH the AS4_PATH is ignored,
+        # otherwise the leading (len2 - len4) ASes of AS_PATH, with the segments they are in, are
+        # prepended to AS4_PATH. The segments keep their type and their order: flattening every
+        # sequence into one and every set into another turned [ set, sequence ] into [ sequence, set ].
+        count2 = sum(len(segment) for segment in as2path.aspath)
+        count4 = sum(len(segment) for segment in as4path.aspath)
 
-        as_seq = merged(as2path.as_seq, as4path.as_seq)
-        as_set = merged(as2path.as_set, as4path.as_set)
-
-        # Build segments from merged ASN lists
-        segments: list[SET | SEQUENCE] = []
-        if as_seq:
-            segments.append(SEQUENCE(as_seq))
-        if as_set:
-            segments.append(SET(as_set))
+        segments: list[Any] = []
+        if count2 < count4:
+            segments = [type(segment)(list(segment)) for segment in as2path.aspath]
+        else:
+            leading = count2 - count4
+            for segment in as2path.aspath:
+                if leading <= 0:
+                    break
+                taken = list(segment)[:leading]
+                segments.append(type(segment)(taken))
+                leading -= len(taken)
+            for segment in as4path.aspath:
+                # a sequence cut in two by the prepending is still one sequence
+                if segments and type(segments[-1]) is type(segment) and isinstance(segment, SEQUENCE):
+                    segments[-1] = SEQUENCE(list(segments[-1]) + list(segment))
+                else:
+                    segments.append(type(segment)(list(segment)))
         # the merged path carries the 4-byte ASNs of AS4_PATH: it can only be held in 4-byte form
         aspath = AS2Path.make_aspath(segments, asn4=True)
         self.add(aspath, key)
